@@ -100,7 +100,7 @@ func c16Gen(tier string, emit func(any)) {
 			}
 		}
 	}
-	for _, l := range []string{"unparseable-source", "rewrite-error", "unparseable-result", "missing-path", "missing-path-abs", "missing-path-abs-slash", "missing-path-abs-dots", "missing-path-abs-dotdot", "missing-dir-rel-dots", "missing-patch", "patch-is-directory", "malformed-patch", "missing-patches-file", "patches-file-names-missing-patch", "patches-file-unterminated-names-missing-patch", "patches-file-unterminated-names-malformed-patch"} {
+	for _, l := range []string{"unparseable-source", "rewrite-error", "unparseable-result", "missing-path", "missing-path-abs", "missing-path-abs-slash", "missing-path-abs-dots", "missing-path-abs-dotdot", "missing-dir-rel-dots", "missing-patch", "patch-is-directory", "malformed-patch", "missing-patches-file", "patches-file-names-missing-patch", "patches-file-unterminated-names-missing-patch", "patches-file-unterminated-names-malformed-patch", "name-too-long-for-temporary"} {
 		for n := 1; n <= 3; n++ {
 			for pos := 0; pos < n; pos++ {
 				emit(&C16Case{Family: "logical", Logical: l, Kinds: make([]string, n), Position: pos})
@@ -629,6 +629,13 @@ func c16Logical(env *core.Env, c *C16Case) core.Outcome {
 				content = "package p\n\nfunc r() {\n\tif cond(v) {\n\t\tfoo(2)\n\t}\n}\n"
 				failing, perFile = name, true
 				wantInStderr = []string{name}
+			case "name-too-long-for-temporary":
+				// a legal name so long that a sibling with a longer name cannot be created; the patched text is
+				// shorter than the original
+				name = fmt.Sprintf("f%d_", i) + strings.Repeat("n", 236) + ".go"
+				content = "package p\n\nfunc long() {\n\tfoo(aVeryLongArgumentThatMakesTheOriginalLongerThanTheResult)\n\tfoo(another)\n}\n"
+				failing, perFile = name, true
+				wantInStderr = []string{name}
 			}
 		}
 		tree["t/"+name] = content
@@ -640,6 +647,8 @@ func c16Logical(env *core.Env, c *C16Case) core.Outcome {
 		patchText = "@@\nvar x, y expression\n@@\n-baz(x)\n+qux(x, y)\n\n" + c16Patch
 	case "unparseable-result":
 		patchText = "@@\nvar x expression\n@@\n-cond(x)\n+x == T{}\n\n" + c16Patch
+	case "name-too-long-for-temporary":
+		patchText = "@@\nvar x expression\n@@\n-foo(x)\n+b()\n"
 	}
 	tree["p.patch"] = patchText
 	args = []string{"-p", filepath.Join(root, "p.patch")}
@@ -697,6 +706,18 @@ func c16Logical(env *core.Env, c *C16Case) core.Outcome {
 	r := c16Exec(env, root, names, nil, "", append(args, fileArgs...))
 	if r.killed {
 		return bad("crash", "gopatch crashed: %s", firstN(r.stderr, 400))
+	}
+	if c.Logical == "name-too-long-for-temporary" && r.exit == 0 {
+		// an implementation that manages to patch such a file is fine too: then its bytes must be complete
+		soloRoot := filepath.Join(env.Scratch, "c16solo")
+		drive.FreshDir(soloRoot)
+		drive.WriteTree(soloRoot, map[string]string{"t/short.go": orig[failing], "p.patch": patchText})
+		sr := c16Exec(env, soloRoot, []string{"short.go"}, nil, "", []string{"-p", filepath.Join(soloRoot, "p.patch"), "short.go"})
+		os.RemoveAll(soloRoot)
+		if r.files[failing] != sr.files["short.go"] {
+			return bad("half-written-file", "exit status 0 but the long-named file holds neither its original nor its complete patched bytes: %q\nwant %q", r.files[failing], sr.files["short.go"])
+		}
+		return o
 	}
 	if r.exit == 0 {
 		return bad("failure-not-reported", "exit status 0; stderr %q", r.stderr)
